@@ -30,7 +30,9 @@ EFFECTFUL = {
 
 
 def ACTOR_REF_FNS(features):
-    names = ["new", "identity", "downgrade"]
+    names = ["new", "identity", "downgrade", "is_alive", "tell", "tell_with_timeout", "kill", "stop",
+             "blocking_tell", "blocking_tell_no_timeout", "tell_blocking",
+             "ask", "ask_with_timeout", "blocking_ask", "blocking_ask_no_timeout", "ask_blocking", "ask_join"]
     if "metrics" in features:
         names += ["metrics_collector"]
     return names
@@ -152,6 +154,138 @@ SPECS["actor_ref.rs::Clone for ActorWeak::clone"] = dict(pure=True, ensures=[
 ])
 
 
+# ------------------------------------------------------------------ dead letters
+SPECS["dead_letter.rs::record"] = dict(record_emit=True, requires=[], ensures=[
+    C("record.exactly_one_dead_letter_with_given_fields", "C13",
+      "final(w).log() =~= dl_log::<M>(old(w).log(), identity, reason, operation@)"),
+    C("record.frame", "C12 C13", "same_ambient_but_dl(*old(w), *final(w))"),
+    C("record.counter_plus_one_iff_enabled", "C13", "final(w).dl_count() == old(w).dl_count() + dl_counter_step()"),
+])
+
+# ------------------------------------------------------------------ send side
+AMB = "same_ambient_but_dl(*old(w), *final(w))"
+SPECS["actor_ref.rs::ActorRef::tell"] = dict(ret="result", ensures=[
+    C("tell.relation", "C01 C02 C09 C13", "r_tell::<T, M>(*self, msg_id(msg), old(w).log(), final(w).log(), result, \"tell\"@)"),
+    C("tell.frame", "C12", AMB),
+])
+SPECS["actor_ref.rs::ActorRef::tell_with_timeout"] = dict(ret="result", ensures=[
+    C("tell_with_timeout.relation", "C01 C10 C13", "r_tell_timeout::<T, M>(*self, msg_id(msg), timeout, old(w).log(), final(w).log(), result, \"tell\"@)"),
+    C("tell_with_timeout.frame", "C12", AMB),
+])
+SPECS["actor_ref.rs::ActorRef::kill"] = dict(ret="result", ensures=[
+    C("kill.relation", "C06", "r_kill(*self, old(w).log(), final(w).log(), result)"),
+    C("kill.frame", "C12", "same_ambient(*old(w), *final(w))"),
+])
+SPECS["actor_ref.rs::ActorRef::stop"] = dict(ret="result", ensures=[
+    C("stop.relation", "C01 C02 C07 C09", "r_stop(*self, old(w).log(), final(w).log(), result)"),
+    C("stop.frame", "C12", "same_ambient(*old(w), *final(w))"),
+])
+SPECS["actor_ref.rs::ActorRef::is_alive"] = dict(ret="result", ensures=[
+    C("is_alive.relation", "C11", "r_is_alive(*self, old(w).log(), final(w).log(), result)"),
+])
+SPECS["actor_ref.rs::ActorRef::blocking_tell_no_timeout"] = dict(ret="result", ensures=[
+    C("blocking_tell_no_timeout.relation", "C17 C02 C13", "r_tell::<T, M>(*self, msg_id(msg), old(w).log(), final(w).log(), result, \"blocking_tell\"@)"),
+    C("blocking_tell_no_timeout.frame", "C12", AMB),
+])
+SPECS["actor_ref.rs::ActorRef::blocking_tell"] = dict(ret="result", ensures=[
+    C("blocking_tell.none_is_no_timeout_variant", "C17", "timeout is None ==> r_tell::<T, M>(*self, msg_id(msg), old(w).log(), final(w).log(), result, \"blocking_tell\"@)"),
+    C("blocking_tell.some_goes_to_timeout_impl_with_d", "C17 C10",
+      "timeout matches Some(d) ==> final(w).log() =~= old(w).log().push(Eff::Opaque(OpaqueTag::BlockingTellTimeout { pid: msg_id(msg), d: d, chan: self.mbx_chan() }))"),
+])
+SPECS["actor_ref.rs::ActorRef::tell_blocking"] = dict(ret="result", ensures=[
+    C("tell_blocking.alias_ignores_timeout", "C17", "r_tell::<T, M>(*self, msg_id(msg), old(w).log(), final(w).log(), result, \"blocking_tell\"@)"),
+])
+
+
+def _ask(features):
+    rel = "r_ask::<T, M, T::Reply>(*self, msg_id(msg), *old(w), *final(w), result, \"ask\"@)"
+    d = dict(ret="result", ensures=[
+        C("ask.relation", "C01 C02 C03 C13", rel),
+        C("ask.frame", "C12", AMB),
+    ])
+    return d
+
+
+SPECS["actor_ref.rs::ActorRef::ask"] = _ask
+SPECS["actor_ref.rs::ActorRef::ask_with_timeout"] = dict(ret="result", ensures=[
+    C("ask_with_timeout.relation", "C01 C03 C10 C13",
+      "r_ask_timeout::<T, M, T::Reply>(*self, msg_id(msg), timeout, *old(w), *final(w), result, \"ask\"@)"),
+    C("ask_with_timeout.frame", "C12", AMB),
+])
+SPECS["actor_ref.rs::ActorRef::blocking_ask_no_timeout"] = dict(ret="result", ensures=[
+    C("blocking_ask_no_timeout.relation", "C17 C02 C03 C13",
+      "r_ask_core::<T, M, T::Reply>(*self, msg_id(msg), old(w).log(), final(w).log(), result, \"blocking_ask\"@)"),
+    C("blocking_ask_no_timeout.frame", "C12", AMB),
+])
+SPECS["actor_ref.rs::ActorRef::blocking_ask"] = dict(ret="result", ensures=[
+    C("blocking_ask.none_is_no_timeout_variant", "C17",
+      "timeout is None ==> r_ask_core::<T, M, T::Reply>(*self, msg_id(msg), old(w).log(), final(w).log(), result, \"blocking_ask\"@)"),
+    C("blocking_ask.some_goes_to_timeout_impl_with_d", "C17 C10",
+      "timeout matches Some(d) ==> final(w).log() =~= old(w).log().push(Eff::Opaque(OpaqueTag::BlockingAskTimeout { pid: msg_id(msg), d: d, chan: self.mbx_chan() }))"),
+])
+SPECS["actor_ref.rs::ActorRef::ask_blocking"] = dict(ret="result", ensures=[
+    C("ask_blocking.alias_ignores_timeout", "C17",
+      "r_ask_core::<T, M, T::Reply>(*self, msg_id(msg), old(w).log(), final(w).log(), result, \"blocking_ask\"@)"),
+])
+SPECS["actor_ref.rs::ActorRef::ask_join"] = dict(ret="result", ensures=[
+    C("ask_join.awaits_the_handle_returned_by_ask", "C03", "r_ask_join::<T, M, R>(*self, msg_id(msg), *old(w), *final(w), result)"),
+])
+
+
+# ------------------------------------------------------------------ weak handles
+SPECS["actor_ref.rs::ActorWeak::upgrade"] = dict(ret="result", ensures=[
+    C("actor_weak.upgrade.some_iff_both_senders_upgrade", "C07 C11", "r_upgrade(*self, old(w).log(), final(w).log(), result is Some)"),
+    C("actor_weak.upgrade.same_actor", "C07 C11",
+      "result matches Some(a) ==> a.id == self.id && a.sender.chan() == self.sender.chan() && a.terminate_sender.chan() == self.terminate_sender.chan()"),
+    C("actor_weak.upgrade.frame", "C12", "same_ambient(*old(w), *final(w))"),
+])
+SPECS["actor_ref.rs::ActorWeak::is_alive"] = dict(ret="result", ensures=[
+    C("actor_weak.is_alive.iff_both_strong_counts_positive", "C11", "r_weak_alive(*self, old(w).log(), final(w).log(), result)"),
+])
+
+# ------------------------------------------------------------------ spawn / capacity
+SPECS["lib.rs::set_default_mailbox_capacity"] = dict(ret="result", ensures=[
+    C("set_default_capacity.zero_rejected_cell_untouched", "C09",
+      "size == 0 ==> (result matches Err(Error::MailboxCapacity { .. })) && final(w).cap_cell() == old(w).cap_cell() && final(w).log() =~= old(w).log()"),
+    C("set_default_capacity.ok_iff_first_nonzero", "C09",
+      "size > 0 ==> (result is Ok <==> old(w).cap_cell() is None)"),
+    C("set_default_capacity.ok_stores_exactly_size", "C09", "result is Ok ==> final(w).cap_cell() == Some(size)"),
+    C("set_default_capacity.second_call_fails_and_keeps_value", "C09",
+      "result is Err ==> (result matches Err(Error::MailboxCapacity { .. })) && final(w).cap_cell() == old(w).cap_cell()"),
+    C("set_default_capacity.frame", "C12",
+      "final(w).id_floor() == old(w).id_floor() && final(w).dl_count() == old(w).dl_count() && final(w).graph() == old(w).graph() && final(w).lock_held() == old(w).lock_held()"),
+])
+SPAWN_POST = [
+    C("spawn.capacity_positive_or_panic", "C09", "cap_used > 0"),
+    C("spawn.effects_exactly", "C09 C11 C01 C02",
+      "final(w).log() =~= spawn_tail::<T>(LOG0, r.0, cap_used, val_id(args))"),
+    C("spawn.ref_points_at_spawned_task_channels", "C06 C11", "r.0.mbx_chan() != r.0.ctl_chan()"),
+    C("spawn.identity_fresh", "C11", "r.0.id.id as int >= old(w).id_floor() && final(w).id_floor() > r.0.id.id as int"),
+    C("spawn.identity_type_name", "C11", "r.0.id.type_name@ == type_name_spec::<T>()"),
+    C("spawn.frame", "C12", "final(w).dl_count() == old(w).dl_count() && final(w).graph() == old(w).graph() && final(w).lock_held() == old(w).lock_held() && final(w).cap_cell() == old(w).cap_cell() && final(w).current_actor() == old(w).current_actor()"),
+]
+
+
+def _sub(clauses, **kw):
+    out = []
+    for (l, p, e) in clauses:
+        for k, v in kw.items():
+            e = e.replace(k, v)
+        out.append((l, p, e))
+    return out
+
+
+SPECS["lib.rs::spawn_with_mailbox_capacity"] = dict(
+    requires=[C("spawn.pre.unlocked", "C12", "!old(w).lock_held()")],
+    ensures=_sub(SPAWN_POST, cap_used="mailbox_capacity", LOG0="old(w).log()"))
+SPECS["lib.rs::spawn"] = dict(
+    requires=[C("spawn.pre.unlocked", "C12", "!old(w).lock_held()")],
+    ensures=[(l.replace("spawn.", "spawn_default."), p, e) for (l, p, e) in
+             _sub(SPAWN_POST, cap_used="default_capacity(*old(w))", LOG0="old(w).log().push(Eff::CellGet(cell_DEFAULT_CAPACITY(), old(w).cap_cell()))")]
+    + [
+       C("spawn_default.default_is_32", "C09", "DEFAULT_MAILBOX_CAPACITY == 32")])
+
+
 # ====================================================================== metadata used by ./check
 # feature sets (besides default) a property's quick check needs
 PROPERTY_FEATURES = {
@@ -167,6 +301,8 @@ EXTRA_LABELS = {
     "spawn.lifecycle_gets_refs_mailbox": "C01 C02 C09",
     "spawn.lifecycle_gets_refs_control": "C06",
     "spawn.lifecycle_distinct_channels": "C06",
+    "capacity_cell.only_nonzero_values": "C09",
+    "mpsc.channel.capacity_positive": "C09",
 }
 
 # unlabelled verifier failures (overflow, unlabelled shim precondition) inside a function are attributed
